@@ -20,3 +20,26 @@ def make_interp(repo_root, track=True, n_devices=1, reset=True):
     it.world = w
     it.trace = w.trace
     return it, w
+
+
+_CACHE = {}
+
+
+def get_interp(repo_root, track=True, n_devices=1):
+    """Interpreter cached per process (module loading happens once); per-obligation state is reset."""
+    key = (repo_root, track)
+    if key not in _CACHE:
+        _CACHE[key] = make_interp(repo_root, track, n_devices)
+        return _CACHE[key]
+    it, w = _CACHE[key]
+    poly.reset_symbols()
+    del w.trace[:]
+    w.param_counter = 0
+    w.key_counter = 0
+    w.app_counter = 0
+    w.n_devices = n_devices
+    w.allclose_mode = None
+    it.steps = 0
+    del it.stack[:]
+    it.functions_entered.clear()
+    return it, w
